@@ -199,7 +199,80 @@ def check_mass(case, ctx):
     ctx.require(img.sum() <= w * (1 + 1e-9) + 1e-300, "mass_exceeds_weight", lambda: "pixel total %r > total weight %r" % (img.sum(), w))
 
 
+@st.composite
+def s_large(draw):
+    spec = draw(I.imager_spec(max_res=8, max_r=0.999))
+    return {"spec": spec, "seed": draw(st.integers(0, 2 ** 32 - 1)), "n": draw(st.sampled_from([100, 128, 129, 130, 200, 300])),
+            "skew": draw(st.booleans())}
+
+
+def check_large(case, ctx):
+    """diagrams of 100..300 points: the image of the whole equals the sum of the images of its two halves (each <= 150 points)
+    and of ten chunks, and does not depend on the order"""
+    import random
+    spec, skew = case["spec"], case["skew"]
+    g = spec["grid"]
+    s = g["pixel"]
+    rng = random.Random(case["seed"])
+    b0, p0 = g["b_lo"] * s, g["p_lo"] * s
+    pts = [[b0 + rng.uniform(-0.5, g["nb"] + 0.5) * s, max(0.0, p0 + rng.uniform(-0.5, g["np"] + 0.5) * s)] for _ in range(case["n"])]
+    klabels(ctx, spec)
+    ctx.label("n=%d" % case["n"])
+    ctx.nontrivial(case["n"] > 128)
+    imgr = ctx.call(I.make_imager, spec)
+
+    def T(p):
+        return np.asarray(ctx.call(imgr.transform, bp_array(p, skew), skew=skew))
+
+    whole = T(pts)
+    half = case["n"] // 2
+    parts = T(pts[:half]) + T(pts[half:])
+    tol = 1e-11 * wsum(spec, pts, skew) + 1e-300
+    ctx.require(not np.any(np.isnan(whole)), "nan", "NaN pixels for a large diagram")
+    ctx.require(np.all(np.abs(whole - parts) <= tol), "not_additive_large",
+                lambda: "%d points: max |T(all) - T(first half) - T(second half)| = %.3g (tol %.3g)" % (case["n"], np.abs(whole - parts).max(), tol))
+    chunks = sum(T(pts[i::10]) for i in range(10))
+    ctx.require(np.all(np.abs(whole - chunks) <= tol), "not_additive_large", lambda: "%d points vs ten chunks: max diff %.3g" % (case["n"], np.abs(whole - chunks).max()))
+    sh = list(pts)
+    rng.shuffle(sh)
+    ctx.require(np.all(np.abs(T(sh) - whole) <= tol), "order_dependent_large", lambda: "shuffled large diagram differs by %.3g" % np.abs(T(sh) - whole).max())
+
+
+@st.composite
+def s_fine(draw):
+    kern = draw(st.sampled_from(["uniform", "uniform", "axis", "corr"]))
+    return {"res": [draw(st.sampled_from([255, 256, 257, 300, 64])), draw(st.sampled_from([255, 256, 257, 300, 400]))], "kern": kern,
+            "pts": [[draw(st.sampled_from([0.1, 0.35, 0.5, 0.77, 0.9])), draw(st.sampled_from([0.1, 0.3, 0.5, 0.8]))] for _ in range(draw(st.integers(1, 3)))]}
+
+
+def check_fine(case, ctx):
+    """grids of ~256 x 256 pixels and more (> 65536 mesh nodes) with a kernel that takes the general path: pixel signs, total mass,
+    and agreement of 4 x 4 block sums with the image on the 4-times coarser grid"""
+    rb, rp = case["res"]
+    if rb % 4 or rp % 4:
+        rb, rp = rb - rb % 4 + 4, rp - rp % 4 + 4
+    s = 1.0 / 256
+    k = {"uniform": {"type": "uniform", "w": 9 * s, "h": 13 * s}, "axis": {"type": "axis", "vx": (6 * s) ** 2, "vy": (3 * s) ** 2, "form": "list"},
+         "corr": {"type": "corr", "vx": (6 * s) ** 2, "vy": (5 * s) ** 2, "r": 0.6, "form": "array"}}[case["kern"]]
+    pts = [[b * rb * s, p * rp * s] for b, p in case["pts"]]
+    ctx.label("kern:" + case["kern"], "nodes>65536" if (rb + 1) * (rp + 1) > 65536 else "nodes<=65536")
+    ctx.nontrivial((rb + 1) * (rp + 1) > 65536)
+    fine = {"grid": {"pixel": s, "b_lo": 0, "nb": rb, "p_lo": 0, "np": rp}, "kernel": k, "weight": {"type": "callable", "name": "const", "param": 1.0}}
+    coarse = dict(fine, grid={"pixel": 4 * s, "b_lo": 0, "nb": rb // 4, "p_lo": 0, "np": rp // 4})
+    a = np.asarray(ctx.call(ctx.call(I.make_imager, fine).transform, np.array(pts), skew=False))
+    c = np.asarray(ctx.call(ctx.call(I.make_imager, coarse).transform, np.array(pts), skew=False))
+    ctx.require(a.shape == (rb, rp), "shape", lambda: "fine image shape %s, expected %s" % (a.shape, (rb, rp)))
+    w = float(len(pts))
+    ctx.require(np.all(a >= -1e-12 * w), "negative_pixel", lambda: "min pixel %r on a %dx%d grid" % (a.min(), rb, rp))
+    ctx.require(a.sum() <= w * (1 + 1e-9), "mass_exceeds_weight", lambda: "pixel total %r > total weight %r" % (a.sum(), w))
+    blocks = a.reshape(rb // 4, 4, rp // 4, 4).sum(axis=(1, 3))
+    ctx.require(np.all(np.abs(blocks - c) <= 1e-9 * w), "fine_grid_inconsistent_with_coarse_grid",
+                lambda: "4x4 block sums of the %dx%d image differ from the %dx%d image by %.3g" % (rb, rp, rb // 4, rp // 4, np.abs(blocks - c).max()))
+
+
 def VALID_DEFAULT(case):
+    if "res" in case:
+        return len(case["res"]) == 2 and min(case["res"]) >= 4 and len(case["pts"]) >= 1 and all(len(q) == 2 for q in case["pts"])
     return I.valid_spec(case["spec"])
 
 
@@ -217,6 +290,12 @@ CLAUSES = [
                 "non-trivial = j != 1 and >= 3 diagrams"),
     Clause("skew_consistency", s_skew(), check_skew, quick=2000, thorough=30000,
            rule="transform(bd, skew=True) == transform(bp, skew=False) exactly, bp computed with the same subtraction; non-trivial = >= 2 points"),
+    Clause("large_diagrams", s_large(), check_large, quick=160, thorough=1600,
+           rule="diagrams of 100..300 points expanded from a generated seed: T(all) == T(first half) + T(second half) == sum of ten chunks == "
+                "T(shuffled); non-trivial = more than 128 points"),
+    Clause("fine_grids", s_fine(), check_fine, quick=48, thorough=320,
+           rule="grids of 64..300 x 255..400 pixels (mostly > 65536 mesh nodes) with uniform / axis-aligned / correlated kernels (general path): "
+                "no negative pixel, total <= weight, 4x4 block sums equal the image on the 4-times coarser grid; non-trivial = > 65536 nodes"),
     Clause("mass_bounds", s_mass(), check_mass, quick=2000, thorough=30000,
            rule="non-negative weights: every pixel >= -1e-12*sum w and pixel total <= sum w; non-trivial = >= 2 points"),
 ]
